@@ -26,7 +26,7 @@ def sh(cmd, **kw):
 def one(d, wts):
     sid = os.path.basename(d)
     meta = json.load(open(os.path.join(d, "meta.json")))
-    pid = sid.split("-")[0]
+    pid = meta.get("judged_by") or sid.split("-")[0]  # (a change reclassified to another property is judged by that property's check)
     summary = " ".join(str(meta.get("summary", "")).split())[:110].replace("|", "/")
     if meta.get("status") == "obsolete":
         return (sid, pid, "obsolete", "-", summary)
